@@ -115,11 +115,14 @@ PROPS = {
                 "dequeue/ack/nack); the process SIGKILLs itself at the n-th hit of one of 14 hook labels (between per-target enqueues, before/after the "
                 "202, after the publish commit, after the store ack/nack, inside sqlite transactions) or is SIGKILLed externally after k requests; it is "
                 "restarted on the same db and inspected through GET /messages, pull dequeue after lease expiry and PRAGMA integrity_check; non-trivial = the "
-                "label was hit (or external kill), >=1 request acknowledged before and >=1 in flight at the kill",
+                "label was hit (or external kill), >=1 request acknowledged before and >=1 in flight at the kill | in-process fault tier: the store "
+                "answers one per-target enqueue of a fan-out request with a transient error (queue full / memory pressure / other): the request must not be "
+                "answered 202 and must keep exactly the copies for the earlier targets",
         "level": "fault_enumeration",
         "assumptions": ["SIGKILL keeps the OS page cache: power-loss durability is not decided", "interleavings of the concurrent clients are sampled by the OS scheduler"],
         "guards": ["acked-before-crash", "inflight-at-crash", "redelivery-checked"],
-        "parts": [{"engine": "front", "test": "TestProp_C01_ProcessCrash", "quick": 64, "thorough": 4000, "shards": {"quick": 8}, "needs_bins": ["hookaido"], "shrinktime": "60s"}],
+        "parts": [{"engine": "front", "test": "TestProp_C01_ProcessCrash", "quick": 64, "thorough": 4000, "shards": {"quick": 8}, "needs_bins": ["hookaido"], "shrinktime": "60s"},
+                  {"engine": "front", "test": "TestProp_C01_FanoutFault", "quick": 2000, "thorough": 150000}],
     },
     "C03": {
         "rule": "concurrent tier: 2-16 consumers of three kinds (direct Store, Pull HTTP handler, Worker gRPC methods) plus an operator run generated "
